@@ -180,6 +180,9 @@ def profile(rng):
     if rng.random() < 0.3:
         # names that differ only in surrounding blanks / case, prefixes of each other, names looking like other things
         p.meas = ["m0", " m0", "m0 ", "M0", "m", "m00", "_default", "None", "m0\t"]
+    elif rng.random() < 0.25:
+        # names that are patterns in some syntax (glob, regex, SQL LIKE): a name is a literal
+        p.meas = ["m0", "m1", "m*", "m?", "m[01]", "rate[5m]", "rate5", ".*", "m.", "%", "_default"]
     p.getter_probes = True
     p.n_random_probes = 3
     p.time_probes = False
